@@ -65,7 +65,13 @@ Record call := mk_call { c_key : N; c_id : N; c_tp : N; c_info : option (list N)
 Definition log_event (c : call) (ts : N) : event :=
   mk_event (c_key c mod 65536)                                       (* (uint16_t)key *)
            (N.lor (match c_info c with Some _ => 1 | None => 0 end)  (* PARSEC_PROFILING_EVENT_HAS_INFO *)
-                  (c_flags c mod 65536))                             (* flags |= flags *)
+                  (N.land (c_flags c mod 65536) 65534))              (* flags |= (flags & ~HAS_INFO) *)
+           (c_tp c mod 4294967296) (c_id c mod 18446744073709551616) (ts mod 18446744073709551616)
+           (c_info c).
+(* before the repair 27f62af the caller's HAS_INFO bit was kept: flags |= flags *)
+Definition log_event_prefix (c : call) (ts : N) : event :=
+  mk_event (c_key c mod 65536)
+           (N.lor (match c_info c with Some _ => 1 | None => 0 end) (c_flags c mod 65536))
            (c_tp c mod 4294967296) (c_id c mod 18446744073709551616) (ts mod 18446744073709551616)
            (c_info c).
 
@@ -150,9 +156,36 @@ Definition ser_thread (t : thread) : list N :=
 (* a whole profile: dictionary and streams (hr_id, infos, events) *)
 Record stream := mk_stream { s_hr : list N; s_infos : list (list N * list N); s_events : list event }.
 Definition has_events (s : stream) : bool := match s_events s with [] => false | _ => true end.
+
+(* dump_thread (after the repair 54d29e4): an info that does not fit the space
+   left in the thread buffer is skipped, the others are copied.  thread_size()
+   makes the same choice with the entry placed at the start of a buffer (same
+   test >= since the repair 73717d1, so thread_size < avail), and the entry is
+   moved to a fresh buffer when pos + thread_size >= avail: the infos kept do
+   not depend on the position of the entry (ProfDump.kept_position_independent),
+   so the model computes them at position 0. *)
+Definition info_sz (kv : list N * list N) : N := N.of_nat (length (fst kv) + length (snd kv) + 11).
+Fixpoint thread_size_from (avail s : N) (infos : list (list N * list N)) : N :=
+  match infos with
+  | [] => s
+  | kv :: r => if avail <=? s + info_sz kv then thread_size_from avail s r
+               else thread_size_from avail (s + info_sz kv) r
+  end.
+Fixpoint kept_from (avail pos : N) (infos : list (list N * list N)) : list (list N * list N) :=
+  match infos with
+  | [] => []
+  | kv :: r => if avail <=? pos + info_sz kv then kept_from avail pos r
+               else kv :: kept_from avail (pos + info_sz kv) r
+  end.
+Definition kept_infos (avail : N) (infos : list (list N * list N)) : list (list N * list N) :=
+  kept_from avail 156 infos.
+(* thread_size() warned about an info: parsec_profiling_dbp_dump returns PARSEC_ERROR (the file is complete) *)
+Definition omits (avail : N) (infos : list (list N * list N)) : bool :=
+  negb (Nat.eqb (length (kept_infos avail infos)) (length infos)).
+
 (* chains: 0 = dictionary, 1 = thread table, 2+i = events of stream i *)
-Definition thread_of (alloc : nat -> nat -> N) (i : nat) (s : stream) : thread :=
-  mk_thread (s_hr s) (N.of_nat (length (s_events s))) (alloc (2 + i)%nat 0%nat) (s_infos s).
+Definition thread_of (avail : N) (alloc : nat -> nat -> N) (i : nat) (s : stream) : thread :=
+  mk_thread (s_hr s) (N.of_nat (length (s_events s))) (alloc (2 + i)%nat 0%nat) (kept_infos avail (s_infos s)).
 Fixpoint indexed {A} (i : nat) (l : list A) : list (nat * A) :=
   match l with [] => [] | x :: r => (i, x) :: indexed (S i) r end.
 Definition encode (avail : N) (alloc : nat -> nat -> N) (d : list kent) (ss : list stream) : list (N * list N) :=
@@ -160,7 +193,7 @@ Definition encode (avail : N) (alloc : nat -> nat -> N) (d : list kent) (ss : li
   enc_table avail BT_DICT (alloc 0%nat) (map ser_key d)
   (* dump_thread: "We don't store threads with no events at all" *)
   ++ enc_table avail BT_THREAD (alloc 1%nat)
-       (map (fun p => ser_thread (thread_of alloc (fst p) (snd p)))
+       (map (fun p => ser_thread (thread_of avail alloc (fst p) (snd p)))
             (filter (fun p => has_events (snd p)) (indexed 0 ss)))
   ++ concat (map (fun p => enc_events il avail (alloc (2 + fst p)%nat) (s_events (snd p))) (indexed 0 ss)).
 
@@ -285,11 +318,39 @@ Definition decode (fuel : nat) (file : N -> option (list N)) (doff : N) (dn : na
   end.
 
 (* what a faithful read-back of a profile is *)
-Definition profile_view (alloc : nat -> nat -> N) (d : list kent) (ss : list stream)
+Definition profile_view (avail : N) (alloc : nat -> nat -> N) (d : list kent) (ss : list stream)
   : list kent * list (thread * list event) :=
   (map key_view d,
-   map (fun p => (thread_view (thread_of alloc (fst p) (snd p)), s_events (snd p)))
+   map (fun p => (thread_view (thread_of avail alloc (fst p) (snd p)), s_events (snd p)))
        (filter (fun p => has_events (snd p)) (indexed 0 ss))).
+
+(* ---------- dump_thread before the repair 54d29e4 ----------------------------
+   the copy loop did `continue` without advancing when an info did not fit: it
+   never returned.  [None] / [false] = parsec_profiling_dbp_dump does not terminate. *)
+Fixpoint thread_size_prefix (avail s : N) (infos : list (list N * list N)) : N :=      (* test > before 73717d1 *)
+  match infos with
+  | [] => s
+  | kv :: r => if avail <? s + info_sz kv then thread_size_prefix avail s r
+               else thread_size_prefix avail (s + info_sz kv) r
+  end.
+Fixpoint copy_infos_prefix (avail pos : N) (infos : list (list N * list N)) : option N :=
+  match infos with
+  | [] => Some pos
+  | kv :: r => if avail <=? pos + info_sz kv then None else copy_infos_prefix avail (pos + info_sz kv) r
+  end.
+Fixpoint dump_threads_prefix (avail pos : N) (ths : list (list (list N * list N))) : bool :=
+  match ths with
+  | [] => true
+  | infos :: r =>
+      let sz := thread_size_prefix avail 156 infos in
+      let pos1 := if avail <=? pos + sz then 0 else pos in          (* next thread buffer *)
+      match copy_infos_prefix avail (pos1 + 156) infos with
+      | None => false
+      | Some p => dump_threads_prefix avail p r
+      end
+  end.
+Definition dump_terminates_prefix (avail : N) (ss : list stream) : bool :=
+  dump_threads_prefix avail 0 (map s_infos (filter has_events ss)).
 
 (* a global trace: calls of several streams interleaved in time *)
 Definition proj (s : nat) (tr : list (nat * event)) : list event :=
